@@ -125,7 +125,7 @@ fn request_with<const A: usize, const B: usize, const Q: usize>(
     let uri = http::Uri::try_from(u).ok()?;
     *req.uri_mut() = uri;
     let (parts, _) = req.into_parts();
-    Some(ClientRequest::new(vs::key_from([3u8; 32]), ProtocolVersion::V2, parts))
+    Some(ClientRequest::new(vs::key_from([0u8; 32]), ProtocolVersion::V2, parts))
 }
 
 /// Reference for one Authorization value: Some(Some(token)) bearer token, Some(None) skip,
